@@ -89,7 +89,7 @@ def make_conn(nmax=12):
 
 
 _AST = {}
-BIG = 600      # rows of the table used by the occasional large histories
+BIG = 300      # rows of the table used by the occasional large histories
 
 
 def stmt_for(size):
@@ -353,7 +353,7 @@ def run(ctx):
             break
         hist = [('new', 0)]
         ncur = 1
-        big = rng.random() < 0.04
+        big = rng.random() < 0.025
         sizes = [0, 1, 2, 3, 5, 8, 12] if not big else [0, 1, 63, 64, 100, 257, 512, BIG]
         many = [None, None, 0, 1, 2, 3, 5] if not big else [None, 1, 7, 64, 100, 256, 1000]
         asizes = [1, 2, 5] if not big else [1, 10, 100, 1000]
